@@ -192,7 +192,7 @@ def configurations(ctx: Ctx) -> list[dict]:
     for i, (s, p, m) in enumerate(base):
         seed = rng.randrange(1, 2 ** 31 - 1)
         out.append({"id": i, "schema": s, "phases": p, "modes": m, "seed": seed, "seed2": seed + 1 + rng.randrange(1000),
-                    "h1": rng.randrange(1, 4000), "h2": rng.randrange(4001, 8000), "max_examples": 5 if ctx.quick else 8, "steps": 4 if ctx.quick else 5,
+                    "h1": rng.randrange(1, 4000), "h2": rng.randrange(4001, 8000), "max_examples": 5 if ctx.quick else 6, "steps": 4 if ctx.quick else 5,
                     "diff": (not ctx.quick) or i % 2 == 0})
     return out
 
